@@ -65,6 +65,7 @@ ALPHABETS = {
     "a15": _multisets("NAUV"),                                             # 0, 1 or 2 constraints of any of the 4 kinds
     "a10": _multisets("NAU"),                                              # same without unnamed use_alter
     "a7": [(), ("N",), ("A",), ("U",), ("N", "A"), ("N", "U"), ("A", "U")],  # two constraints only of different kinds
+    "a6": [(), ("N",), ("A",), ("U",), ("N", "A"), ("A", "U")],
     "a5": [(), ("N",), ("A",), ("U",), ("N", "A")],
     "a4": [(), ("N",), ("A",), ("U",)],
     "a4na": [(), ("N",), ("A",), ("N", "A")],
@@ -97,14 +98,14 @@ def families(tier):
     F_2 = ["none", "dropper_alter"]
     fams = [
         dict(name="fn1", mode="fn", n=1, off="a1", self_="a15", filters=F_ALL, skips=["none", "named"], extras="none"),
-        dict(name="fn2", mode="fn", n=2, off="a15", self_="a15", filters=F_ALL, skips=["none", "named"], extras="param1", extra_filters=F_2),
-        dict(name="fn3", mode="fn", n=3, off="a7", self_="a1", filters=F_3 if q else F_MAIN, skips=["none"] if q else ["none", "named"], extras="none",
+        dict(name="fn2", mode="fn", n=2, off="a15", self_="a5" if q else "a15", filters=F_ALL, skips=["none", "named"], extras="param1", extra_filters=F_2),
+        dict(name="fn3", mode="fn", n=3, off="a6" if q else "a7", self_="a1", filters=F_3 if q else F_MAIN, skips=["none"] if q else ["none", "named"], extras="none",
              subsets=True, subset_filters=F_2),
-        dict(name="fn3self", mode="fn", n=3, off="a4na", self_="a3", max_self=1, filters=F_3 if q else F_MAIN, skips=["none"], extras="none"),
+        dict(name="fn3self", mode="fn", n=3, off="a3" if q else "a4na", self_="a3", max_self=1, filters=F_3 if q else F_MAIN, skips=["none"], extras="none"),
         dict(name="ext3", mode="ext", n=3, off="a4", self_="a1", filters=F_2 if q else F_3),
-        dict(name="dep3", mode="dep", n=3, off="a3", self_="a1", filters=F_2),
+        dict(name="dep3", mode="dep", n=3, off="a3", self_="a1", max_pairs=4 if q else None, filters=F_2),
         dict(name="e2e2", mode="e2e", n=2, off="a10", self_="a5" if q else "a10"),
-        dict(name="e2e3", mode="e2e", n=3, off="a5", self_="a1"),
+        dict(name="e2e3", mode="e2e", n=3, off="a5", self_="a1", max_pairs=4 if q else None),
     ]
     if not q:
         fams += [
@@ -275,8 +276,7 @@ def judge_stc(tabs, lab, order, filt, extras, result, exc):
 
     def bad(kind, text):
         broken.append(text)
-        if kind not in kinds:
-            kinds.append(kind)
+        kinds.append(kind)   # parallel to `broken`
     if exc is not None:
         if isinstance(exc, CircularDependencyError):
             info["raised"] = True
@@ -354,8 +354,7 @@ def judge_st(tabs, lab, order, skip, extras, result, exc):
 
     def bad(kind, text):
         broken.append(text)
-        if kind not in kinds:
-            kinds.append(kind)
+        kinds.append(kind)   # parallel to `broken`
     sk = SKIPS[skip]
     deps = []
     for f, l in lab.items():
@@ -413,6 +412,14 @@ def call_st(tabs, order, skip, extras, via):
         return sort_tables([tabs[i] for i in order], **kw), None
     except Exception as e:
         return None, e
+
+
+def by_kind(broken, kinds):
+    """one (sentences, [kind]) pair per kind of broken clause: every kind is reported / matched against known findings on its own"""
+    out = []
+    for kind in sorted(set(kinds)):
+        out.append(([b for b, k in zip(broken, kinds) if k == kind], [kind]))
+    return out
 
 
 def desc_fn(call, n, fks, order, flt, extras, via, broken, kinds, info):
@@ -476,8 +483,7 @@ def judge_create(dialect, n, fks, deps, log, exc):
 
     def bad(kind, text):
         broken.append(text)
-        if kind not in kinds:
-            kinds.append(kind)
+        kinds.append(kind)   # parallel to `broken`
     nodes, fk_edges, unnamed_edges, dep = e2e_graph(n, fks, deps)
     if exc is not None:
         bad("create:raise:" + type(exc).__name__, f"create_all raised {type(exc).__name__}: {str(exc)[:160]}")
@@ -534,8 +540,7 @@ def judge_drop(dialect, n, fks, deps, log, exc):
 
     def bad(kind, text):
         broken.append(text)
-        if kind not in kinds:
-            kinds.append(kind)
+        kinds.append(kind)   # parallel to `broken`
     nodes, fk_edges, unnamed_edges, dep = e2e_graph(n, fks, deps)
     info = {}
     if exc is not None:
@@ -667,19 +672,21 @@ def e2e_case(n, fks, deps):
     for dialect in ("sqlite", "postgresql"):          # sqlite first: AddConstraint on postgresql marks constraints as isolated
         clog, cexc, dlog, dexc = run_mock(dialect, m)
         b, k, ci = judge_create(dialect, n, fks, deps, clog, cexc)
-        if b:
-            fails.append(dict(call="create_all", dialect=dialect, n=n, fks=fks, deps=[list(d) for d in deps], broken=b, broken_kinds=k,
+        for b1, k1 in by_kind(b, k):
+            fails.append(dict(call="create_all", dialect=dialect, n=n, fks=fks, deps=[list(d) for d in deps], broken=b1, broken_kinds=k1,
                               statements=[s.strip() for s in clog]))
+        if b:
+            pass
         elif cexc is None:
             b, k, di = judge_drop(dialect, n, fks, deps, dlog, dexc)
-            if b:
-                fails.append(dict(call="drop_all", dialect=dialect, n=n, fks=fks, deps=[list(d) for d in deps], broken=b, broken_kinds=k,
+            for b1, k1 in by_kind(b, k):
+                fails.append(dict(call="drop_all", dialect=dialect, n=n, fks=fks, deps=[list(d) for d in deps], broken=b1, broken_kinds=k1,
                                   statements=[s.strip() for s in dlog]))
             info[dialect] = dict(alters=ci.get("alters", 0), drop_raised=bool(di.get("raised")))
         if dialect == "sqlite":
             b, k, ri = run_real_sqlite(n, fks, deps, m, tabs)
-            if b:
-                fails.append(dict(call="real", dialect="sqlite", n=n, fks=fks, deps=[list(d) for d in deps], broken=b, broken_kinds=k))
+            for b1, k1 in by_kind(b, k):
+                fails.append(dict(call="real", dialect="sqlite", n=n, fks=fks, deps=[list(d) for d in deps], broken=b1, broken_kinds=k1))
             info["rows"] = ri.get("rows")
     return fails, info
 
@@ -700,7 +707,8 @@ def _worker(job):
         res["evaluations"] += 1
         res["per_family"][fam["name"]] += 1
         if broken:
-            res["failures"].append(dict(function=fn, desc=desc_fn(call, n, fks, order, flt, extras, via, broken, kinds, info)))
+            for b1, k1 in by_kind(broken, kinds):
+                res["failures"].append(dict(function=fn, desc=desc_fn(call, n, fks, order, flt, extras, via, b1, k1, info)))
             return
         nt = info.get("cyclic") or info.get("rest") or info.get("raised")
         if nt:
@@ -755,13 +763,14 @@ def _worker(job):
             extra_sets = [[e] for e in pairs] + [list(c) for c in itertools.combinations(pairs, 2)]
             for extras in extra_sets:
                 for order in ((perms[0], perms[-1]) if len(extras) == 1 else (perms[0],)):
-                    for flt in fam["filters"]:
+                    for flt in (fam["filters"] if len(extras) == 1 else fam["filters"][:1]):
                         result, exc = call_stc(tabs, order, flt, extras, "param")
                         b, k, info = judge_stc(tabs, lab, order, flt, extras, result, exc)
                         account("sort_tables_and_constraints", fks, order, flt, extras, "param", b, k, info, FN_STC)
-                    result, exc = call_st(tabs, order, "named", extras, "param")
-                    b, k, info = judge_st(tabs, lab, order, "named", extras, result, exc)
-                    account("sort_tables", fks, order, "named", extras, "param", b, k, info, FN_ST)
+                    if len(extras) == 1:
+                        result, exc = call_st(tabs, order, "named", extras, "param")
+                        b, k, info = judge_st(tabs, lab, order, "named", extras, result, exc)
+                        account("sort_tables", fks, order, "named", extras, "param", b, k, info, FN_ST)
             continue
         # mode fn
         plans = [([], list(perms), fam["filters"], fam["skips"])]
@@ -812,6 +821,9 @@ def run(run, tier, seed, args):
     import sqlalchemy.sql.ddl  # noqa: F401  (imported before forking: workers share the loaded modules, nothing mapped or connected)
     import sqlalchemy.dialects.postgresql  # noqa: F401
     import sqlalchemy.dialects.sqlite  # noqa: F401
+    import gc
+    gc.collect()
+    gc.freeze()   # the forked workers do not re-traverse (and copy) the parent's heap
     agg = H.Agg()
     for r in H.run_sharded(_worker, joblist):
         agg.add(r)
@@ -825,8 +837,8 @@ def run(run, tier, seed, args):
                       + (f"; both functions x ALL input orders x extra_dependencies = every single edge x filter_fn in {fam.get('extra_filters')}"
                          if fam.get("extras") == "param1" else "") + "; "
                       "one representative per isomorphism class (relabelling of tables), which together with all input orders covers every labelled graph",
-                "ext": f"every labelled graph x extra_dependencies = every single explicit edge x input order (declared, reversed) and every set of 2 explicit edges x declared "
-                       f"order, x filter_fn in {fam.get('filters')} (+ sort_tables with skip_fn named)",
+                "ext": f"every labelled graph x extra_dependencies = every single explicit edge x input order (declared, reversed) x filter_fn in {fam.get('filters')} "
+                       f"(+ sort_tables with skip_fn named), and every set of 2 explicit edges x declared order x filter_fn {fam.get('filters', ['none'])[0]}",
                 "dep": f"every labelled graph x every single Table.add_is_dependent_on edge (tables rebuilt) x ALL input orders x filter_fn in {fam.get('filters')}, + end to end",
                 "e2e": "every labelled graph, tables declared t0..tn: create_all + drop_all (checkfirst=False) through create_mock_engine for sqlite and postgresql, "
                        "and create_all / insert / drop_all on real SQLite :memory: with foreign_keys=ON"}[fam["mode"]]
@@ -907,7 +919,13 @@ def replay(data):
             broken, kinds, info = judge_stc(tabs, lab, d["order"], d["filter"], extras, result, exc)
     else:
         fails, info = e2e_case(n, fks, [tuple(e) for e in d.get("deps", [])])
-        broken = [b for f in fails if f["call"] == call and f["dialect"] == d["dialect"] for b in f["broken"]]
+        broken, kinds = [], []
+        for f in fails:
+            if f["call"] == call and f["dialect"] == d["dialect"]:
+                broken += f["broken"]
+                kinds += f["broken_kinds"] * len(f["broken"])
+    if d.get("broken_kinds"):   # the replay file is about these kinds of broken clause only
+        broken = [b for b, k in zip(broken, kinds) if k in d["broken_kinds"]]
     what = f"{call} n={n} fks={[fname(x) for x in fks]} " + " ".join(f"{k}={d[k]}" for k in ("order", "filter", "skip_fn", "extra", "deps", "dialect") if d.get(k))
     if broken:
         print(f"REPLAY-FAILS {data.get('function')} {what} broken={broken}")
